@@ -204,7 +204,7 @@ class Ctx:
             cmd.append("-modfile=" + alt)
         if race:
             cmd.append("-race")
-        cmd += ["-o", binp, "./cmd/replay"]
+        cmd += ["-o", binp, "./cmd/" + self.prop.lower().replace("_replay", "")]
         t0 = time.time()
         r = subprocess.run(cmd, cwd=HARNESS, env=env, stdout=subprocess.PIPE,
                            stderr=subprocess.STDOUT, text=True)
